@@ -20,7 +20,7 @@ PROPERTY = 'C17'
 LEVEL = 'exploration'
 RULE = ('fixed corpus (every payload length of {0,1,125,126,127,65535,65536,70000} x text/binary x server/client in both '
         'directions, fragmentations with interleaved ping/pong, closing handshakes followed by frames and writes, client '
-        'constructor data, two sockets) + every single cut (and, thorough, every pair of cuts in header regions) of a family of '
+        'constructor data, two sockets, codecs created by the real HTTP upgrade handshake of WebSocketsDispatcher) + every single cut (and, thorough, every pair of cuts in header regions) of a family of '
         'short streams + byte-at-a-time deliveries + seeded random cases (1-6 messages, 1-6 fragments, random masks, random '
         'cuts biased to header/extended-length/mask offsets, writes and closes between reads); non-trivial = a read boundary '
         'falls strictly inside a frame, or a message is fragmented, or a message is written and decoded by the reference peer; '
@@ -30,7 +30,8 @@ ASSUMPTIONS = [
     'every injected read event is settled before the next one (the codec is single-threaded by construction)',
     'messages and pings that complete after the endpoint itself sent a close frame but before the peer\'s close frame may or may not be delivered/answered (RFC 6455 allows both); only exact-or-absent is required of them',
     'frames after the peer\'s close frame are sent by the harness on purpose (a non-conforming tail) to observe that nothing is delivered after a close frame',
-    'the closing handshake itself (echoing the close frame, closing the transport) is counted but not asserted',
+    'the closing handshake itself (echoing the close frame, closing the transport) and the masking of the codec\'s own close frame are counted but not asserted',
+    'no generated ping is subject to two known-finding mechanisms at once (inside a fragmented message / in constructor data / after the endpoint\'s close frame): it is generated as a pong instead, because the neutralised twins could not separate the mechanisms (restriction to be lifted once the findings are fixed)',
 ]
 REQUIRED = ['ref_codec_rfc_vectors_ok', 'server_mode_case', 'client_mode_case',
             'inbound_len_7bit', 'inbound_len_16bit', 'inbound_len_64bit', 'inbound_masked_frame', 'inbound_unmasked_frame',
@@ -40,7 +41,7 @@ REQUIRED = ['ref_codec_rfc_vectors_ok', 'server_mode_case', 'client_mode_case',
             'ping_payload_125', 'pong_decoded_from_codec', 'written_len_7bit', 'written_len_16bit', 'written_len_64bit',
             'written_masked_frame', 'written_unmasked_frame', 'peer_close_then_frames_same_read', 'peer_close_then_frames_later_read',
             'write_after_peer_close', 'write_after_local_close', 'frames_after_local_close', 'close_frame_written_by_codec',
-            'client_constructor_data', 'two_sockets_interleaved', 'message_after_fragmented_message']
+            'client_constructor_data', 'two_sockets_interleaved', 'message_after_fragmented_message', 'codec_created_by_dispatcher_handshake']
 REQUIRED_OBLIGATIONS = ['DECODE', 'ENCODE', 'PING_PONG', 'CTRL_IN_FRAGMENTED', 'AFTER_CLOSE_DELIVERY', 'AFTER_CLOSE_SEND']
 WORKER_TIMEOUT = {'quick': 300, 'thorough': 1500}
 
@@ -50,11 +51,17 @@ K_HDR = 'ws.header-split-indexerror'
 K_PINGFRAG = 'ws.ping-inside-fragmented-message'
 K_PINGCLOSE = 'ws.ping-after-close-sent-typeerror'
 K_INITPING = 'ws.ping-in-constructor-data'
-KEY_ORDER = [K_INITPING, K_PINGFRAG, K_PINGCLOSE, K_HDR]
+# order in which single triggers are tried: moving a read boundary touches nothing else, so it comes first; turning a ping into a
+# pong also hides a header split that happens to hit that very ping
+KEY_ORDER = [K_HDR, K_INITPING, K_PINGFRAG, K_PINGCLOSE]
 
 
 class Unsettled(Exception):
-    pass
+    """The harness could not bring the case to a judgeable state (inconclusive, never a violation)."""
+
+
+UPGRADE_REQUEST = (b'GET /ws HTTP/1.1\r\nHost: localhost\r\nUpgrade: websocket\r\nConnection: Upgrade\r\n'
+                   b'Sec-WebSocket-Key: AAECAwQFBgcICQoLDA0ODw==\r\nSec-WebSocket-Version: 13\r\n\r\n')
 
 
 # ------------------------------------------------------------------------------------------------
@@ -201,10 +208,24 @@ def execute(case, lay):
     w = Wire('web')
     log = w.out
     socks, codecs, ctor_errors = [], [], {}
+    via_dispatcher = case.get('via') == 'dispatcher'   # server mode: the codec is created by the real upgrade handshake
     try:
+        if via_dispatcher:
+            from circuits.web.http import HTTP
+            from circuits.web.websockets import WebSocketsDispatcher
+            HTTP(w).register(w)
+            WebSocketsDispatcher('/ws', wschannel='ws').register(w)
+            Tap(log).register(w)
+            w.settle()
         for ci, conn in enumerate(case['conns']):
             sock = FakeSock(('127.0.0.1', 40000 + ci)) if server else None
             socks.append(sock)
+            if via_dispatcher:
+                w.inject(read(sock, UPGRADE_REQUEST))
+                if not w.written(sock).startswith(b'HTTP/1.1 101') or w.exceptions:
+                    raise Unsettled('upgrade handshake not answered with 101: %r' % w.written(sock)[:80])
+                codecs.append(True)
+                continue
             initial = lay[ci][0][:conn.get('initial', 0)]
             try:
                 codec = WebSocketCodec(sock, initial, channel='ws') if server else WebSocketCodec(data=initial, channel='ws')
@@ -214,7 +235,10 @@ def execute(case, lay):
                 continue
             codec.register(w)
             codecs.append(codec)
-        Tap(log).register(w)
+        if via_dispatcher:
+            del log[:]
+        else:
+            Tap(log).register(w)
         try:
             w.settle()
             fed = [c.get('initial', 0) for c in case['conns']]
@@ -241,7 +265,7 @@ def execute(case, lay):
             raise
         obs = []
         for ci, sock in enumerate(socks):
-            reads, out, after = [], [], {}
+            reads, out = [], []
             step = -1
             n_wsclose = n_close = 0
             for e in log:
@@ -406,9 +430,10 @@ def judge(case, lay, tl, obs, excs, stray):
         # -- pings ---------------------------------------------------------------------------------
         preq, popt = [], []
         for i, f in enumerate(frames):
-            if f['op'] != R.OP_PING or done[i] is None or (pc is not None and i > pc):
+            if f['op'] != R.OP_PING or done[i] is None:
                 continue
-            (popt if late(i) else preq).append(f['payload'])
+            # a ping after the peer's close frame, or after the endpoint's own one, need not be answered
+            (popt if late(i) or (pc is not None and i > pc) else preq).append(f['payload'])
         pongs = view.of('pong')
         pb = _match(pongs, preq, popt)
         if pb is not None:
@@ -427,6 +452,8 @@ def judge(case, lay, tl, obs, excs, stray):
 def features(case, lay, tl, obs):
     c = Counter()
     c['server_mode_case' if case['mode'] == 'server' else 'client_mode_case'] += 1
+    if case.get('via') == 'dispatcher':
+        c['codec_created_by_dispatcher_handshake'] += 1
     inside_cut = False
     if len(case['conns']) > 1:
         order = [st[1] for st in case['steps'] if st[0] in ('feed', 'feedby')]
@@ -526,25 +553,33 @@ def features(case, lay, tl, obs):
     return c, nontrivial
 
 
+def ping_mechanisms(case, lay, tl):
+    """{(conn, frame index): [keys]} - which known-finding mechanisms a ping that the codec processes is subject to."""
+    out = {}
+    for ci, conn in enumerate(case['conns']):
+        frames, t = lay[ci][1], tl[ci]
+        for i, f in enumerate(frames):
+            if f['op'] != R.OP_PING or t['done'][i] is None or (t['peer_close'] is not None and i > t['peer_close']):
+                continue
+            ks = []
+            if t['done'][i] == -1:
+                ks.append(K_INITPING)
+            if f['inside'] is not None:
+                ks.append(K_PINGFRAG)
+            if t['local_close'] is not None and t['done'][i] > t['local_close']:
+                ks.append(K_PINGCLOSE)
+            if ks:
+                out[(ci, i)] = ks
+    return out
+
+
 def triggers(case, lay, tl):
     """Which known-finding mechanisms are present in the case (structural, independent of what was observed)."""
-    found = []
+    found = {k for ks in ping_mechanisms(case, lay, tl).values() for k in ks}
     for ci, conn in enumerate(case['conns']):
-        stream, frames, msgs = lay[ci]
-        t = tl[ci]
-        for off, si in t['bounds']:
-            if any(f['start'] < off < f['start'] + 2 + f['ext'] for f in frames):
-                found.append(K_HDR)
-                break
-        for i, f in enumerate(frames):
-            if f['op'] != R.OP_PING or t['done'][i] is None:
-                continue
-            if f['inside'] is not None:
-                found.append(K_PINGFRAG)
-            if t['local_close'] is not None and t['done'][i] > t['local_close']:
-                found.append(K_PINGCLOSE)
-            if t['done'][i] == -1:
-                found.append(K_INITPING)
+        frames = lay[ci][1]
+        if any(f['start'] < off < f['start'] + 2 + f['ext'] for off, si in tl[ci]['bounds'] for f in frames):
+            found.add(K_HDR)
     return [k for k in KEY_ORDER if k in found]
 
 
@@ -556,32 +591,31 @@ def _to_pong(case, ci, ref):
         it[0] = 'pong'
 
 
+def sanitize(case):
+    """Generated cases never contain a ping subject to two known-finding mechanisms at once (e.g. inside a fragmented message AND
+    after the endpoint's own close frame): turning it into a pong removes all of them together, so the neutralised twins could
+    not tell which one a failure is due to.  Such a ping is generated as a pong instead."""
+    lay = [layout(c) for c in case['conns']]
+    tl = timeline(case, lay)
+    for (ci, i), ks in ping_mechanisms(case, lay, tl).items():
+        if len(ks) > 1:
+            _to_pong(case, ci, lay[ci][1][i]['ref'])
+    return case
+
+
 def neutralise(case, keys):
-    """The same case with only the given triggers removed.  Pings become pongs of the same size (the byte layout, hence every
-    cut, stays what it was); a read boundary inside a frame header moves back to the start of that frame; constructor data
-    stops in front of the first ping."""
+    """The same case with only the given triggers removed.  A ping subject to one of the ping mechanisms becomes a pong of the same
+    size (the byte layout, hence every cut, stays what it was; by construction - see sanitize - it is subject to that mechanism
+    only); a read boundary (or the end of the constructor data) inside a frame header moves back to the start of that frame,
+    which changes neither the frames completed by each read nor any other byte."""
     case = copy.deepcopy(case)
     case.pop('name', None)
     lay = [layout(c) for c in case['conns']]
     tl = timeline(case, lay)
-    for ci, conn in enumerate(case['conns']):
-        stream, frames, msgs = lay[ci]
-        t = tl[ci]
-        if K_INITPING in keys:
-            first = next((f for i, f in enumerate(frames) if f['op'] == R.OP_PING and t['done'][i] == -1), None)
-            if first is not None:
-                old = conn.get('initial', 0)
-                conn['initial'] = first['start']
-                case['steps'].insert(0, ['feed', ci, old])
-        for i, f in enumerate(frames):
-            if f['op'] != R.OP_PING or t['done'][i] is None:
-                continue
-            if K_PINGFRAG in keys and f['inside'] is not None:
-                _to_pong(case, ci, f['ref'])
-            elif K_PINGCLOSE in keys and t['local_close'] is not None and t['done'][i] > t['local_close']:
-                _to_pong(case, ci, f['ref'])
+    for (ci, i), ks in ping_mechanisms(case, lay, tl).items():
+        if any(k in keys for k in ks):
+            _to_pong(case, ci, lay[ci][1][i]['ref'])
     if K_HDR in keys:
-        lay = [layout(c) for c in case['conns']]
         lens = [len(x[0]) for x in lay]
 
         def moved(ci, off):
@@ -589,13 +623,9 @@ def neutralise(case, keys):
                 if f['start'] < off < f['start'] + 2 + f['ext']:
                     return f['start']
             return off
+        steps = [['feed', st[1], moved(st[1], st[2])] if st[0] == 'feed' else st for si, st in expand_steps(case, lens)]
         for ci, conn in enumerate(case['conns']):
             conn['initial'] = moved(ci, conn.get('initial', 0))
-        steps = []
-        for si, st in expand_steps(case, lens):
-            if st[0] == 'feed':
-                st = ['feed', st[1], moved(st[1], st[2])]
-            steps.append(st)
         case['steps'] = steps
     return case
 
@@ -702,7 +732,12 @@ def corpus():
     cases.append({'name': 'two-sockets', 'mode': 'server', 'conns': [{'items': a, 'initial': 0}, {'items': b, 'initial': 0}], 'steps': [
         ['feed', 0, 10], ['feed', 1, 9], ['write', 1, ['text', 5, 1]], ['feed', 0, 30], ['feed', 1, 40], ['write', 0, ['bin', 5, 2]],
         ['feed', 0, ALL], ['write', 0, ['bin', 5, 3]], ['feed', 1, ALL], ['write', 1, ['text', 126, 3]]]})
-    return cases
+    # 10. the same through the real upgrade handshake (HTTP + WebSocketsDispatcher create and register the codec)
+    for c in list(cases):
+        if c['mode'] == 'server' and c.get('name') in ('len-126-text', 'len-65536-bin', 'fragments-pong', 'pings-standalone', 'safe-cuts-126',
+                                                        'peer-close-later-reads', 'local-close-then-peer-close', 'two-sockets', 'mask-00000000'):
+            cases.append(dict(copy.deepcopy(c), via='dispatcher', name=c['name'] + '-via-dispatcher'))
+    return [sanitize(c) for c in cases]
 
 
 SMALL = [0, 1, 2, 3, 5, 20, 124, 125, 126, 127, 128, 200, 300]
@@ -796,7 +831,7 @@ def gen_case(rng, big=0.0):
             extra.append(['close', ci])
     for st in extra:
         steps.insert(rng.randint(0, len(steps)), st)
-    return {'mode': mode, 'conns': conns, 'steps': steps}
+    return sanitize({'mode': mode, 'conns': conns, 'steps': steps})
 
 
 def family(tier):
@@ -841,7 +876,7 @@ def family_cases(tier, part, parts):
             offs = sorted({o for f in frames for o in list(range(f['start'], f['hdr_end'] + 3)) + [f['end'] - 1] if 0 < o < len(stream)})
             for c in offs:
                 cases.append({'mode': mode, 'conns': [{'items': copy.deepcopy(items), 'initial': 0}], 'steps': [['feed', 0, c], ['feed', 0, ALL]]})
-    return cases[part::parts]
+    return [sanitize(c) for c in cases[part::parts]]
 
 
 # ------------------------------------------------------------------------------------------------
@@ -850,7 +885,7 @@ def plan(tier, seed):
         return ([{'kind': 'corpus'}] + [{'kind': 'cuts', 'tier': 'quick', 'part': i, 'parts': 5} for i in range(5)] +
                 [{'kind': 'random', 'seed': seed * 1000 + i, 'n': 260, 'big': 0.02} for i in range(10)])
     return ([{'kind': 'corpus'}] + [{'kind': 'cuts', 'tier': 'thorough', 'part': i, 'parts': 24} for i in range(24)] +
-            [{'kind': 'random', 'seed': seed * 100000 + i, 'n': 4500, 'big': 0.01} for i in range(40)])
+            [{'kind': 'random', 'seed': seed * 100000 + i, 'n': 3500, 'big': 0.01} for i in range(40)])
 
 
 def evaluate(b, case):
@@ -896,20 +931,28 @@ def evaluate(b, case):
             b.fail(case, clause, dict(detail, triggers_present=trig), known=[(k, lambda k=k: passes((k,))) for k in trig], dedup=detail.get('why'))
 
 
+def _cases(spec):
+    if spec['kind'] == 'corpus':
+        yield from corpus()
+    elif spec['kind'] == 'cuts':
+        yield from family_cases(spec['tier'], spec['part'], spec['parts'])
+    else:
+        rng = random.Random(spec['seed'])
+        for _ in range(spec['n']):
+            yield gen_case(rng, spec.get('big', 0.0))
+
+
 def run_batch(spec):
     import circuits  # noqa: F401  (the real package under test)
     b = Batch(PROPERTY)
     if spec['kind'] == 'corpus':
         b.reached('ref_codec_rfc_vectors_ok', R.selfcheck())
-        for case in corpus():
-            evaluate(b, case)
-    elif spec['kind'] == 'cuts':
-        for case in family_cases(spec['tier'], spec['part'], spec['parts']):
-            evaluate(b, case)
-    else:
-        rng = random.Random(spec['seed'])
-        for _ in range(spec['n']):
-            evaluate(b, gen_case(rng, spec.get('big', 0.0)))
+    for case in _cases(spec):
+        evaluate(b, case)
+        # the verdict of this batch is already "violation": do not spend twins on thousands of further failing cases
+        if sum(n for k, n in b.failure_keys.items() if k.startswith('UNATTRIBUTED')) >= 15:
+            b.extra['batches_stopped_after_15_unattributed_failures'] = 1
+            break
     return b.result()
 
 
@@ -928,6 +971,6 @@ LEVEL_TEXT = ('Decoded read events (type and payload), pongs, and the frames wri
               'single cut of a family of short streams, byte-at-a-time deliveries and thousands of seeded random cases. Held means: no '
               'mismatch on the executions run apart from the listed known findings; it is sampling plus small exhaustive sub-spaces, not a proof.')
 LEVEL_NOTE = ('Trusted: vlib/ref_ws.py (checked against the examples of RFC 6455 5.7 on every run) and the injection harness. The '
-              'codec is driven directly; the HTTP upgrade handshake of WebSocketsDispatcher / WebSocketClient and real sockets are not '
-              'part of the executions. What happens to messages arriving between the endpoint\'s own close frame and the peer\'s is '
+              'codec is driven directly (nine corpus cases let the real WebSocketsDispatcher upgrade handshake create it); WebSocketClient '
+              'and real sockets are not part of the executions. What happens to messages arriving between the endpoint\'s own close frame and the peer\'s is '
               'only required to be exact-or-absent.')
